@@ -35,7 +35,11 @@ PROPS["C06"]["modules"] += ["IclModel.Props.C01Walk", "IclModel.Props.C06Build"]
 PROPS["C09"]["modules"] += ["IclModel.Props.C06Build", "IclModel.Props.C06Create"]
 # File.Create translated from file.go = the model of the file-level tallies and of the walk that rebuilds every bundle
 PROPS["C06"]["modules"] += ["IclModel.Props.C06Create"]
-PROPS["C17"]["modules"] += ["IclModel.Props.C06Create"]
+PROPS["C17"]["modules"] += ["IclModel.Props.C06Create", "IclModel.Props.C07Build"]
+# CashLetter.build translated from cashLetter.go (and the setters it calls) = the numbering / tally model
+PROPS["C07"]["modules"] += ["IclModel.Props.C07Build"]
+PROPS["C06"]["modules"] += ["IclModel.Props.C07Build"]
+PROPS["C09"]["modules"] += ["IclModel.Props.C07Build"]
 PROPS["C08"]["modules"] += ["IclModel.Props.C01Walk"]
 
 
